@@ -186,8 +186,10 @@ class AsyncSimpleClient:
                 await asyncio.wait_for(self.connected_event.wait(),
                                        timeout=timeout)
             except asyncio.TimeoutError:  # pragma: no cover
+                if self.input_buffer:
+                    break
                 raise TimeoutError()
-            if not self.connected:
+            if not self.connected and not self.input_buffer:
                 raise DisconnectedError()
             try:
                 await asyncio.wait_for(self.input_event.wait(),
